@@ -135,14 +135,18 @@ Import String.
 Local Open Scope string_scope.
 (** The facts regenerated from flood.go on this run are the ones the model is
     built on: the seen cache is keyed by exactly (origin, sequence); the
-    handler looks the key up, marks it, then checks seen-by, stores and floods
-    in that order; the forwarded copy carries seen-by + local id; floodFrame
+    handler looks the key up and marks it inside ONE write-lock region of f.mu
+    (check-then-act is atomic, which is what lets the model treat a handler
+    call's seen-cache test-and-set as one step even when copies arrive
+    concurrently over several peer connections), then checks seen-by, stores
+    and floods in that order; the forwarded copy carries seen-by + local id; floodFrame
     skips the sender and every agent in seen-by; entries expire when strictly
     older than the TTL (300 s), checked on a ticker of period TTL/2. *)
 Theorem C11_source_facts :
   gen_seen_key_fields = ["OriginAgent"; "Sequence"] /\
   gen_seen_key_origin_arg = "originAgent" /\ gen_seen_key_sequence_arg = "sequence" /\
   gen_handle_order_lookup_mark_loopcheck_store_flood = true /\
+  gen_seen_check_and_mark_in_one_lock_region = true /\
   gen_forward_appends_self_to_seenby = true /\
   gen_floodframe_skips_sender_and_seenby = true /\ gen_flood_passes_sender_and_seenby = true /\
   gen_seen_ttl_seconds = seen_ttl /\ seen_ttl / gen_cleanup_ticks_per_ttl = cleanup_period /\
